@@ -42,14 +42,15 @@ def isZero (ty : Ty) (v : Val) : Option Bool :=
   | .basic .complex64, .c64 r i => some ((decodeF32 r).isZero && (decodeF32 i).isZero)
   | .ptr, .ref n => some n | .iface, .ref n => some n | .func, .ref n => some n
   | .slice, .coll l => some l.isNone | .map, .coll l => some l.isNone | .chan, .chan l => some l.isNone
-  | .array n, .arr _ => some (n == 0)                                         -- a non-empty array is never "missing"
+  | .array n, .arr m => if n == m then some (n == 0) else none                 -- a non-empty array is never "missing"
   | _, _ => none
 
 /-- `len()` of a collection (C04): nil ↦ 0, array ↦ declared size, channel ↦ buffered count -/
 def collLen (ty : Ty) (v : Val) : Option Nat :=
   match ty.underlying, v with
   | .slice, .coll l => some (l.getD 0) | .map, .coll l => some (l.getD 0)
-  | .chan, .chan l => some (l.getD 0) | .array n, .arr _ => some n
+  | .chan, .chan l => some (l.getD 0)
+  | .array n, .arr m => if n == m then some n else none          -- (a well-typed array value has the declared size)
   | _, _ => none
 
 def trim (s : String) : String := s.trimAscii.toString
@@ -133,7 +134,7 @@ def violates (rule : String) (param : Option String) (ty : Ty) (v : Val) : Optio
   | "alpha" => (match v with | .str b _ => some (!alphaSpecB b) | _ => none)
   | "numeric" => (match v with | .str b _ => some (!numericSpecB b) | _ => none)
   | "ipv4" => (match v with | .str _ cls => some (cls != 4) | _ => none)
-  | "ipv6" => (match v with | .str _ cls => some (cls != 6) | _ => none)
+  | "ipv6" => (match v with | .str _ cls => some (cls == 0 || cls == 4) | _ => none)   -- not an IP, or an IPv4 address
   | _ => none
 
 end Spec
